@@ -2,8 +2,8 @@ import RsslVerif.Gen.LayoutTables
 /-!
 # Model of `ir/src/layout_checker.rs` (C19)
 
-`get` mirrors `get_type_layout` (both packing modes) and `checkAll` mirrors the final loop of
-`check_layout`.  The per-layer arithmetic is *not* written here: it is the straight-line `Op` programs
+`get` mirrors `get_type_layout` (both packing modes), `offsetsMatch` mirrors `offsets_match` and
+`checkAll` mirrors the final loop of `check_layout`.  The per-layer arithmetic is *not* written here: it is the straight-line `Op` programs
 that `tools/gens/c19.py` re-extracts from the Rust source on every run (`Gen.LayoutTables`), interpreted
 by `runOps`.  All arithmetic is `u32` with overflow checks (the harness is built with
 `overflow-checks = true`): every overflow / `unwrap` / `panic!` site is an explicit `Err.panic`.
@@ -172,6 +172,104 @@ def getMembers (m : Mode) : Tys → Layout → Except Err Layout
       | .ok acc' => getMembers m ts acc'
 end
 
+/-! ### `offsets_match` -/
+
+/-- the mutable locals of `offsets_match` -/
+structure OffSt where
+  /-- `offset_hlsl` -/
+  ch : Nat
+  /-- `offset_metal` -/
+  cm : Nat
+  /-- `hlsl` -/
+  lh : Layout
+  /-- `metal` -/
+  lm : Layout
+
+/-- control flow of one statement: fall through or `return Some(b)` -/
+inductive Flow where
+  | next (s : OffSt)
+  | ret (b : Bool)
+
+/-- one statement of `offsets_match`. `gh`/`gm` are the two `get_type_layout` calls on the member (or
+    element) type, `rec` the recursive `offsets_match` call on it (only inspected where the source
+    evaluates it), `count` the array length. -/
+def offStep (gh gm : Except Err Layout) (rec : Except Err Bool) (count : Nat) (op : OffOp) (s : OffSt) :
+    Except Err Flow :=
+  match op with
+  | .getHlsl =>
+    match gh with
+    | .ok l => .ok (.next { s with lh := l })
+    | .error e => .error e
+  | .getMetal =>
+    match gm with
+    | .ok l => .ok (.next { s with lm := l })
+    | .error e => .error e
+  | .alignHlsl =>
+    match nextMultipleOf s.ch s.lh.align with
+    | .ok z => .ok (.next { s with ch := z })
+    | .error e => .error e
+  | .alignMetal =>
+    match nextMultipleOf s.cm s.lm.align with
+    | .ok z => .ok (.next { s with cm := z })
+    | .error e => .error e
+  | .requireEqualThenRecurse =>
+    if s.ch ≠ s.cm then .ok (.ret false)
+    else match rec with
+      | .ok true => .ok (.next s)
+      | .ok false => .ok (.ret false)
+      | .error e => .error e
+  | .advanceHlsl =>
+    match addU32 s.ch s.lh.size with
+    | .ok z => .ok (.next { s with ch := z })
+    | .error e => .error e
+  | .advanceMetal =>
+    match addU32 s.cm s.lm.size with
+    | .ok z => .ok (.next { s with cm := z })
+    | .error e => .error e
+  | .zeroCountTrue => if count = 0 then .ok (.ret true) else .ok (.next s)
+  | .requireEqualStrideIfSeveral =>
+    if count > 1 then
+      match nextMultipleOf s.lh.size s.lh.align with
+      | .error e => .error e
+      | .ok a =>
+        match nextMultipleOf s.lm.size s.lm.align with
+        | .error e => .error e
+        | .ok b => if a ≠ b then .ok (.ret false) else .ok (.next s)
+    else .ok (.next s)
+  | .recurse =>
+    match rec with
+    | .ok b => .ok (.ret b)
+    | .error e => .error e
+
+def runOff (gh gm : Except Err Layout) (rec : Except Err Bool) (count : Nat) :
+    List OffOp → OffSt → Except Err Flow
+  | [], s => .ok (.next s)
+  | op :: ops, s =>
+    match offStep gh gm rec count op s with
+    | .ok (.next s') => runOff gh gm rec count ops s'
+    | .ok (.ret b) => .ok (.ret b)
+    | .error e => .error e
+
+mutual
+/-- `offsets_match(module, ty)`; `Err.unknown` = `None` -/
+def offsetsMatch : Ty → Except Err Bool
+  | .struct ms => offsetsMembers ms offsetsInit.1 offsetsInit.2
+  | .arr t n =>
+    match runOff (get .hlsl t) (get .metal t) (offsetsMatch t) n offsetsArrayOps ⟨0, 0, ⟨0, 0⟩, ⟨0, 0⟩⟩ with
+    | .ok (.ret b) => .ok b
+    | .ok (.next _) => .error (.panic "model: the array arm of offsets_match has no result")
+    | .error e => .error e
+  | _ => .ok true
+/-- the member loop of the `Struct` arm, from the two running offsets -/
+def offsetsMembers : Tys → Nat → Nat → Except Err Bool
+  | .nil, _, _ => .ok true
+  | .cons t ts, ch, cm =>
+    match runOff (get .hlsl t) (get .metal t) (offsetsMatch t) 0 offsetsMemberOps ⟨ch, cm, ⟨0, 0⟩, ⟨0, 0⟩⟩ with
+    | .ok (.ret b) => .ok b
+    | .ok (.next s) => offsetsMembers ts s.ch s.cm
+    | .error e => .error e
+end
+
 /-- outcome of `check_layout` on the list of types it collected (index = position in that list) -/
 inductive Verdict where
   | ok
@@ -180,11 +278,13 @@ inductive Verdict where
   | panic (msg : String)
   deriving DecidableEq, Repr
 
-/-- do the two adjusted layouts count as different? -/
-def differs (h m : Layout) : Bool :=
+/-- the condition of the final `if` of the loop: do the two adjusted layouts count as different?
+    `same` = result of `offsets_match` -/
+def differs (h m : Layout) (same : Bool) : Bool :=
   match checkCompare with
   | .sizeOnly => h.size != m.size
   | .sizeAndAlign => h.size != m.size || h.align != m.align
+  | .sizeAndOffsets => h.size != m.size || !same
 
 /-- body of the final loop of `check_layout` for one type; `none` = consistent -/
 def checkOne (t : Ty) : Except Err (Option (Layout × Layout)) :=
@@ -199,7 +299,10 @@ def checkOne (t : Ty) : Except Err (Option (Layout × Layout)) :=
       | .ok lh' =>
         match runLay (checkTopOps .metal) ⟨lm, 0, lm, 0⟩ with
         | .error e => .error e
-        | .ok lm' => if differs lh' lm' then .ok (some (lh', lm')) else .ok none
+        | .ok lm' =>
+          match (if hasOffsetsMatch then offsetsMatch t else .ok true) with
+          | .error e => .error e
+          | .ok same => if differs lh' lm' same then .ok (some (lh', lm')) else .ok none
 
 def checkFrom : Nat → List Ty → Verdict
   | _, [] => .ok
